@@ -1,5 +1,8 @@
 import SigmaVerif.Gen.PipeCond
 import SigmaVerif.Model.Cond
+import SigmaVerif.Gen.PipeCondKinds
+import SigmaVerif.Gen.LoadGuards
+import SigmaVerif.Spec.PipeConds
 /-! Obligations for C13: the condition-expression grammar of processing items as it is *now*. -/
 namespace SigmaVerif.Oblig.C13
 open SigmaVerif.Cond
@@ -13,5 +16,29 @@ theorem gen_expr_ops_keyword :
 /-- it is the rule-condition grammar minus selectors -/
 theorem gen_expr_grammar_is_cond_minus_selectors :
     ({ SigmaVerif.Gen.PipeCond.grammar with quants := stdGrammar.quants, patChars := stdGrammar.patChars }).equiv stdGrammar = true := by decide
+
+/-! ### the registry of condition types as it is *now* against `Spec/PipeConds.lean` -/
+open SigmaVerif.PipeConds in
+/-- every registered condition identifier (with the parameters of its class) has a clause in the
+specification, or is explicitly listed as not modelled: a newly registered condition type, or a new
+parameter of an existing one, breaks this until it is classified -/
+theorem gen_every_condition_kind_classified :
+    (SigmaVerif.Gen.PipeCondKinds.rule.all fun k => ruleKinds.contains k || notModelled.contains ("rule:" ++ k.1)) = true ∧
+    (SigmaVerif.Gen.PipeCondKinds.det.all fun k => detKinds.contains k || notModelled.contains ("det:" ++ k.1)) = true ∧
+    (SigmaVerif.Gen.PipeCondKinds.field.all fun k => fieldKinds.contains k || notModelled.contains ("field:" ++ k.1)) = true := by
+  decide
+
+open SigmaVerif.PipeConds in
+/-- … and the specification has no clause for an identifier the code no longer registers -/
+theorem gen_no_stale_condition_kind :
+    (ruleKinds.all SigmaVerif.Gen.PipeCondKinds.rule.contains) = true ∧
+    (detKinds.all SigmaVerif.Gen.PipeCondKinds.det.contains) = true ∧
+    (fieldKinds.all SigmaVerif.Gen.PipeCondKinds.field.contains) = true := by decide
+
+open SigmaVerif.PipeConds in
+/-- the ordered enumerations `rule_attribute` compares in are those of the code, in its order -/
+theorem gen_level_and_status_order :
+    SigmaVerif.Gen.LoadGuards.levels.map (fun s => s.toList.map asciiLower) = levelNames ∧
+    SigmaVerif.Gen.LoadGuards.statuses.map (fun s => s.toList.map asciiLower) = statusNames := by decide
 
 end SigmaVerif.Oblig.C13
